@@ -94,7 +94,10 @@ def run(ctx, rep):
     # R-C16-4 hash schedule
     rep.rule('R-C16-4', 'hash schedule (multiply/add/xor magic constants, rotation amounts, at -O1) equals the reference schedule', 3)
     rep.rule('R-C16-4g', 'hash multiplier globals are never written', 1)
-    from .C04 import memhash_pairing
+    from .C17 import offset_width_rule
+    offset_width_rule(P, rep, 'R-C16-3o')
+    from .C04 import memhash_pairing, hash_length_rule
+    hash_length_rule(P, rep, 'R-C16-3l')
     memhash_pairing(P, rep, 'R-C16-3h')
     from .C10 import primitive_roundtrip_rule
     primitive_roundtrip_rule(P, rep, 'R-C16-3p')
